@@ -3,7 +3,8 @@
 (* Generic trace validation for records that are independent runs of the   *)
 (* real code: {"in": input, "obs": observation}.  The instantiating module *)
 (* supplies, from the specification of its property,                       *)
-(*   InDomain(in)       - the property fixes the behaviour on this input   *)
+(*   InDomain(in, obs)  - the property fixes the behaviour on this input   *)
+(*                        (obs only for measurements of the environment)   *)
 (*   Conforms(in, obs)  - obs is a behaviour the specification allows      *)
 (*   Describe(in)       - what the specification expected (for the replay  *)
 (*                        file written by the driver)                      *)
@@ -12,7 +13,7 @@
 (***************************************************************************)
 EXTENDS Naturals, Sequences, TLC, Json
 
-CONSTANTS Rec, Conforms(_, _), InDomain(_), Describe(_)
+CONSTANTS Rec, Conforms(_, _), InDomain(_, _), Describe(_)
 VARIABLE l
 
 Init == l = 1
@@ -20,7 +21,7 @@ Init == l = 1
 Step ==
   /\ l <= Len(Rec)
   /\ LET r == Rec[l] IN
-       IF ~InDomain(r.in) THEN PrintT(<<"SKIP", l>>)
+       IF ~InDomain(r.in, r.obs) THEN PrintT(<<"SKIP", l>>)
        ELSE IF Conforms(r.in, r.obs) THEN TRUE
        ELSE PrintT(<<"MISMATCH", l, ToJson(Describe(r.in))>>)
   /\ l' = l + 1
